@@ -86,11 +86,19 @@ def check(run, tier, seed):
                               'declarative mediator / instrument characterisations); every returned instrument is checked by the Coq predicate '
                               '(ancestor of the source and d-separated from the destination once the edges leaving the source are removed).')
     hash_seed_stream(run, tier, seed)
+    D.order_independence(run, 'C19', order_fns(), sizes=(4, 5), sample6=0 if tier == 'quick' else 300, rng=__import__('random').Random(seed + 43))
+
+
+def order_fns():
+    from cai_causal_graph.identify_utils import identify_instruments, identify_mediators
+    return [('identify_instruments', identify_instruments, 2), ('identify_mediators', identify_mediators, 2)]
 
 
 def replay(run, path):
     import json as _json
     _c = _json.loads(open(path).read())
+    if _c.get('kind') == 'order_dependence':
+        return D.replay_order(run, _c, order_fns())
     if 'max_num_paths' in _c:
         from .. import gencorr
         why = gencorr.explain('C19', _c)
